@@ -2,6 +2,7 @@
 from __future__ import annotations
 
 import copy
+import json
 
 from ..core import Discard, Violation, stable_hash
 from ..models import layout_gen as lg
@@ -155,6 +156,9 @@ def execute(node, case, rec, opts):
         if pol == "broken":
             node.cache_broken(rz.cache, True)
     lazy = lg.realize(node, case["lazy"], rz)
+    UNORDERED[0] = '"reordered"' in json.dumps(case["lazy"])
+    if UNORDERED[0]:
+        rec.probe("generator_returns_record_fields_in_another_order")
     rec.fault("cache:" + pol)
     rec.state(("topology", tuple(sorted(set(c.split(":")[0] for c in lg.node_classes(case["lazy"]))))))
     declared = case["declare"][0] and case["declare"][1]
@@ -167,7 +171,7 @@ def execute(node, case, rec, opts):
 
     # the untouched lazy structure is transparent to start with
     o = outcome(node, lambda: node.op(23, lazy))
-    if o[0] != "value" or not vm.same(o[1], want):
+    if o[0] != "value" or not same_value(o[1], want):
         raise Violation("transparency", "lazy_array_differs_from_eager", {"stage": "initial read", "expected": vm.to_jsonable(want),
                                                                           "observed": o[1] if o[0] != "value" else vm.to_jsonable(o[1])})
     node.drop(o[2])
@@ -198,7 +202,7 @@ def execute(node, case, rec, opts):
                     raise Violation("robustness", "non_ordinary_exception", {"event": ev, "error": [x.cls, x.msg[:200]]}, at=t)
                 continue
             rec.ev(t, "meta", ev["what"], a.decode("latin-1")[:200])
-            if ev["what"] in META_COMPARED and a != b:
+            if ev["what"] in META_COMPARED and a != b and not (UNORDERED[0] and ev["what"] in ("keys", "type")):
                 raise Violation("transparency", "metadata_differs", {"what": ev["what"], "lazy": a.decode("latin-1"),
                                                                      "eager": b.decode("latin-1")}, at=t)
             if declared and i == 0 and gen_calls() != before and case["cache"]["policy"] in ("none", "keep"):
@@ -360,7 +364,7 @@ def execute(node, case, rec, opts):
                         raise Violation("robustness", "non_ordinary_exception", {"event": ev, "error": [x.cls, x.msg[:200]]}, at=t)
                 else:
                     rec.probe("metadata_compared_after_failed_generation")
-                    if a != b:
+                    if a != b and not (UNORDERED[0] and what in ("keys", "type")):
                         raise Violation("enforcement", "failed_generation_left_metadata_behind",
                                         {"event": ev, "what": what, "lazy": a.decode("latin-1"), "eager": b.decode("latin-1"),
                                          "seam_log": log + ["--- after ---"] + node.seam_log()}, at=t)
@@ -429,10 +433,32 @@ def _has_bytes(v):
     return False
 
 
+def canon(v):
+    """record fields in key order (a record is a mapping: a generator may return the fields in another order than the
+    declared Form lists them)"""
+    if isinstance(v, list):
+        return [canon(x) for x in v]
+    if isinstance(v, tuple) and v:
+        if v[0] == "rec":
+            return ("rec", v[1], sorted(((k, canon(x)) for k, x in v[2]), key=lambda kv: kv[0]))
+        if v[0] == "tup":
+            return ("tup", [canon(x) for x in v[1]])
+        if v[0] == "scalar":
+            return ("scalar", canon(v[1]))
+    return v
+
+
+UNORDERED = [False]     # set per run: some generator of this case returns record fields in another order
+
+
+def same_value(a, b):
+    return vm.same(canon(a), canon(b)) if UNORDERED[0] else vm.same(a, b)
+
+
 def same_outcome(e, l):
     """eager outcome vs lazy outcome: equal values, or both fail (a lazy array may defer its error to the read)"""
     if e[0] == "value":
-        return l[0] == "value" and vm.same(e[1], l[1])
+        return l[0] == "value" and same_value(e[1], l[1])
     return l[0] != "value"
 
 
